@@ -193,6 +193,15 @@ def _shift_scripts(tier, seed):
                              opts_a=dict(link_mtu=576, tx_init=1 << 20, tx_max=1 << 20), opts_b=dict(link_mtu=576),
                              net={"latency_us": 50000, "spacing_us": 20}, info={"class": "loss-free"},
                              wait_us=600 * scen.SEC))
+    # loss episodes that straddle the wrap: segments 60, 61 and 63 (resp. 100) of the transfer are lost once; with the
+    # ISNs below the wrap falls between the lost segments and the highest segment sent when recovery starts
+    for j, (drops, isns) in enumerate([((60, 61, 63), (65536 - 62, 65536 - 64, 65536 - 70)), ((100,), (65536 - 101, 65536 - 104, 65536 - 110))]):
+        sc = scen.transfer(f"shift/recov{j}", seed, n_ab=150000, chunk_w=65536, chunk_r=65536,
+                           opts_a=dict(link_mtu=576, tx_init=1 << 20, tx_max=1 << 20), opts_b=dict(link_mtu=576),
+                           net={"latency_us": 20000, "spacing_us": 50}, info={"class": "fair-lossy"},
+                           rules=[scen.rule(**{"from": "A", "type": "data", "seq_idx": k, "nth": 1, "act": "drop"}) for k in drops])
+        sc["cfg"]["info"]["bases"] = [[100, 1000, 2000]] + [[300, ia, 3000] for ia in isns]
+        out.append(sc)
     bases_quick = [(100, 1000, 2000), (65530, 62000, 64000), (500, 60000, 65535)]
     bases_thorough = bases_quick + [(0, 0, 0), (65535, 65535, 65535), (1, 64512, 1023), (32768, 32767, 32768),
                                     (rng.randrange(65536), rng.randrange(65536), rng.randrange(65536))]
@@ -221,8 +230,12 @@ def metamorphic_part(r, tier, seed):
     mute = ["poll", "recv", "disp", "xmit", "seg", "route", "tab", "rand", "syn_arrived", "syn_matched", "conn_new"]
     runs = {}
     jobs = []
+    default_bases = bases
+    def bases_of(sc):
+        b = sc["cfg"].get("info", {}).get("bases")
+        return [tuple(x) for x in b] if b else default_bases
     for si, sc in enumerate(scripts):
-        for bi, (cid, ia, ib) in enumerate(bases):
+        for bi, (cid, ia, ib) in enumerate(bases_of(sc)):
             s2 = json.loads(json.dumps(sc))
             s2["cfg"]["mute"] = mute
             s2["cfg"]["socks"][0]["rand"] = [cid, ia]
@@ -244,6 +257,7 @@ def metamorphic_part(r, tier, seed):
         for si, sc in enumerate(scripts):
             name = sc["cfg"]["name"]
             a_addr = sc["cfg"]["socks"][0]["addr"]
+            bases = bases_of(sc)
             base0 = bases[0]
             for bi in range(1, len(bases)):
                 A, B = runs[(si, 0)], runs[(si, bi)]
@@ -267,8 +281,11 @@ def metamorphic_part(r, tier, seed):
         si = next((i for i, sc in enumerate(scripts) if name.startswith(sc["cfg"]["name"] + "#")), 0)
         bi = int(name.rsplit("#", 1)[1]) if "#" in name else 1
         s2 = json.loads(json.dumps(scripts[si]))
-        r.violations.append((x, {"kind": "shift", "script": s2, "bases": [list(bases[0]), list(bases[bi])]}, joint))
-    r.notes["metamorphic"] = {"scripts": len(scripts), "bases": [list(b) for b in bases], "datagram_pairs_compared": pairs}
+        bs = bases_of(scripts[si])
+        r.violations.append((x, {"kind": "shift", "script": s2, "bases": [list(bs[0]), list(bs[min(bi, len(bs) - 1)])]}, joint))
+    r.notes["metamorphic"] = {"scripts": len(scripts), "bases": [list(b) for b in default_bases],
+                              "bases_of_loss_episode_scripts": [sc["cfg"]["info"]["bases"] for sc in scripts if sc["cfg"].get("info", {}).get("bases")],
+                              "datagram_pairs_compared": pairs}
 
 
 # ------------------------------------------------------------------------------------------ the check
